@@ -106,7 +106,9 @@ Definition plugin_name (e : sexp) : string := match e with Sym s => s | _ => "?"
 Definition eval09 (e : sexp) : verdict :=
   match e with
   | L [Sym k; Sym pn; L args; Sym cls] =>
-      if k =? "run" then
+      (* twin: the same call twice in one package, on two distinct named types with the same underlying
+         types (typs is the first call's argument list): same prediction, same demands *)
+      if (k =? "run") || (k =? "twin") then
         match plugin_of pn, parse_tys fuel40 args, coarse cls with
         | Some p, Some ts, Some real =>
             let typs := to_list ts in
@@ -135,7 +137,7 @@ Definition eval09 (e : sexp) : verdict :=
                v_model := Sym predicted;
                v_tag := (if negb (known =? "") && (real =? "badfile") then "known:" ++ known ++ "/" ++ pn
                          else if c01 && (real =? "badfile") then "c01:" ++ pn
-                         else pn ++ "/" ++ predicted ++ "/" ++ arm_tag p typs) |}
+                         else (if k =? "twin" then "twin:" else "") ++ pn ++ "/" ++ predicted ++ "/" ++ arm_tag p typs) |}
         | _, _, _ => bad_line
         end
       else bad_line
